@@ -830,11 +830,12 @@ def oracle_diff(run):
 def signature(case, run, diff):
     i, x, y = diff
     what = x.split('=')[0].split('(')[0]
-    line = run.lines[i] or ''
-    if what.startswith('ok tid') or x.startswith('ok tid=') or line == 'finish':
-        if case['kind'] == 'demo':
-            return 'C04:demo-tid-below-base'
+    if y.startswith('ok tid=<above'):
         return 'C04:%s:tid-not-increasing' % case['kind']
+    if x.startswith(('ok', 'err:')) and '=' not in x.split(' ')[0]:
+        # the outcome of an operation (begin / store / delete / reopen ...), not a query answer
+        op = (run.lines[i] or 'op').split(' ')[0].replace('m.', '')
+        return 'C04:%s:%s-outcome' % (case['kind'], op)
     if what == 'undoLog' and case['kind'] == 'fs' and case['txns']:
         if run.first_short and y.startswith(x[:-1]):      # the real list is the oracle's list minus its last entry
             return 'C04:undolog-skips-short-first-txn'
